@@ -43,3 +43,30 @@ package dns
 //@   ensures @C15: (exists i int :: 0 <= i && i < len(labels) && (len(labels[i]) == 0 || len(labels[i]) > 63)) ==> result1 != nil
 //@ loop 1:
 //@   invariant 0 <= iter && iter <= len(labels) && (forall j int :: 0 <= j && j < iter ==> 1 <= len(labels[j]) && len(labels[j]) <= 63)
+
+// C15 "values an encoder cannot represent are rejected with an error rather than silently altered": record data
+// longer than 65535 bytes and sections with more than 65535 entries are refused (the 16-bit length / count that is
+// written otherwise equals the real length / count).
+//@ func (builder *messageBuilder) WriteRR(rr *RR) error
+//@   requires builder != nil && rr != nil && builder.nameCache != nil && validName(rr.Name) && (len(rr.Name) == 0 || !sameobj(builder, rr.Name)) && !sameobj(builder, rr)
+//@   ensures @C15: len(rr.Data) > 65535 ==> result != nil
+//@   atcall Buffer).Write before: assert @C15: arg1 == rr.Data && rdLength == len(rr.Data)
+//@   ensures @C11: true
+//@   checks safety
+
+
+// C11 / C15: the TXT record coders never index out of range, whatever bytes arrive; the decoder rejects a truncated
+// character-string with an error; the encoder's last length octet is the real remaining length (<= 255).
+//@ import bytes "bytes"
+//@ func DecodeRDataTXT(p []byte) ([]byte, error)
+//@   ensures @C11 @C15: true
+//@   checks safety
+//@ loop 1:
+//@   invariant len(p) >= 0 && fresh(&buf)
+
+//@ func EncodeRDataTXT(p []byte) []byte
+//@   atcall Buffer).WriteByte before: assert @C15: (len(p) > 255 && arg1 == 255) || (len(p) <= 255 && arg1 == len(p))
+//@   ensures @C11 @C15: true
+//@   checks safety
+//@ loop 1:
+//@   invariant len(p) >= 0 && fresh(&buf)
